@@ -657,6 +657,9 @@ C04Ack(T, side, kind, waitStep, lim) ==
           \cup (IF expired /\ resends + 1 < lim /\ limitFlt THEN B("positive-ack-limit-fault-before-the-limit-th-expiry") ELSE {})
           \cup (IF expired /\ resends + 1 < lim /\ ~resent /\ ~limitFlt THEN B("not-re-sent-at-the-expiry") ELSE {})
           \cup (IF expired /\ resends + 1 >= lim /\ ~limitFlt THEN B("no-positive-ack-limit-fault-at-the-limit-th-expiry") ELSE {})
+          \* the PDU awaiting its ACK already carries a cancellation: if that exchange times out as well the transaction is abandoned
+          \cup (IF expired /\ resends + 1 >= lim /\ cond # "NO_ERROR" /\ e.post.state # "IDLE"
+                THEN B("cancellation-exchange-timed-out-but-transaction-not-abandoned") ELSE {})
           : i \in { i \in OfSide(T, side) : /\ T.ev[i].call = "fsm" /\ T.ev[i].exc = "none" /\ T.ev[i].pre.step = waitStep
                                              /\ T.ev[i].arg.t = "none" } }
 \* deferred NAK procedure: issuance = a poll (no inbound PDU) that emits NAK PDUs while the procedure is active, or the call
